@@ -87,6 +87,7 @@ def single_defs(f: Func) -> Dict[str, ast.expr]:
                 r = r.value
             if isinstance(r, ast.Name):
                 mutated.add(r.id)
+    subscripted = {x.value.id for x in own_nodes(f.node) if isinstance(x, ast.Subscript) and isinstance(x.value, ast.Name)}
     env = {}
     for name, e in defs.items():
         if name in mutated:
@@ -101,6 +102,8 @@ def single_defs(f: Func) -> Dict[str, ast.expr]:
                 continue  # substituting a side-effecting call (queue.pop(0), rng.normal(..)) would change its meaning
             if not _operands_stable(f, name, e, rebinds):
                 continue  # an operand is re-bound between the definition and a use: the name and its defining expression differ there
+            if isinstance(e, ast.Call) and isinstance(e.func, ast.Name) and not e.func.id[:1].isupper() and e.func.id not in _PURE_FUNCS and name in subscripted:
+                continue  # `params = load(..)` … `params["k"]`: the result of a function call that is then indexed is an object the rules know by its name
             env[name] = e
     return env
 
@@ -774,6 +777,23 @@ def _named_literals(P: Program, f: Func) -> Func:
     return Func(f.mod, f.qual, node, f.cls)
 
 
+_PINNED_CALLED: Optional[Set[str]] = None
+
+
+def pinned_called_attrs() -> Set[str]:
+    """method names that the pinned tree already calls on something (`x.add(..)`, `rng.normal(..)`, `logger.info(..)`): a call of such a name
+    says nothing about a new method that happens to have the same name, plus the method names of the builtin containers and strings"""
+    global _PINNED_CALLED
+    if _PINNED_CALLED is None:
+        import json, os
+        d = json.load(open(os.path.join(os.path.dirname(os.path.abspath(__file__)), "pinned_names.json")))
+        s_ = set(d.get("__called_attrs__", []))
+        for t in (list, dict, set, frozenset, str, bytes, tuple, int, float, object):
+            s_ |= {a for a in dir(t)}
+        _PINNED_CALLED = s_
+    return _PINNED_CALLED
+
+
 def pinned_class_names() -> Set[str]:
     import json, os
     return set(json.load(open(os.path.join(os.path.dirname(os.path.abspath(__file__)), "pinned_names.json"))).get("__classes__", []))
@@ -826,7 +846,10 @@ def resolve_helper(P: Program, f: Func, c: ast.Call) -> Optional[Func]:
         target = f.mod.funcs[fn.id]
     elif isinstance(fn, ast.Name) and len(funcs.get(fn.id, [])) == 1:
         target = funcs[fn.id][0]           # a new public function of another module, imported by name
-    elif isinstance(fn, ast.Attribute) and len(meths.get(fn.attr, [])) == 1:
+    elif isinstance(fn, ast.Attribute) and isinstance(fn.value, ast.Name) and fn.attr not in pinned_called_attrs() \
+            and any(t.cls == fn.value.id and _kind_of_method(t) in ("staticmethod", "classmethod") for t in meths.get(fn.attr, [])):
+        target = [t for t in meths[fn.attr] if t.cls == fn.value.id and _kind_of_method(t) in ("staticmethod", "classmethod")][0]     # Cls.m(..): named class
+    elif isinstance(fn, ast.Attribute) and len(meths.get(fn.attr, [])) == 1 and fn.attr not in pinned_called_attrs():
         t = meths[fn.attr][0]
         kind = _kind_of_method(t)
         if kind in ("staticmethod", "classmethod"):
@@ -911,12 +934,20 @@ def _returns_eliminable(stmts: List[ast.stmt]) -> bool:
                 for br in (st.body, st.orelse):
                     if _contains_return(br) and not _always_returns(br):
                         return False
+        elif isinstance(st, (ast.With, ast.AsyncWith)) and _contains_return([st]):
+            # `with ..: ...; return e` as the last statement: the value is computed inside the block and handed on after it is left — the same
+            # order of events as `with ..: ...; ret = e` followed by nothing
+            return i == len(stmts) - 1 and _returns_eliminable(st.body) and _always_returns_or_falls(st.body)
         elif isinstance(st, (ast.While, ast.For)) and _contains_return([st]):
             # "search loop": `return e` inside the loop is `ret = e; break`, and what follows the loop is its else clause — sound only when
             # the loop has no break or else of its own and every return sits under plain ifs of this loop (not in a nested loop, try or with)
             return not st.orelse and _loop_returns_plain(st.body) and _returns_eliminable(stmts[i + 1:])
         elif _contains_return([st]):
             return False
+    return True
+
+
+def _always_returns_or_falls(stmts: List[ast.stmt]) -> bool:
     return True
 
 
@@ -964,6 +995,15 @@ def _eliminate_returns(stmts: List[ast.stmt], retvar: Optional[str]) -> List[ast
         if isinstance(st, ast.Return):
             if retvar is not None:
                 out.append(ast.copy_location(ast.Assign(targets=[ast.Name(id=retvar, ctx=ast.Store())], value=st.value if st.value is not None else ast.Constant(None)), st))
+            return out
+        if isinstance(st, (ast.With, ast.AsyncWith)) and _contains_return([st]):
+            new = norm.clone(st)
+            new.body = _eliminate_returns(st.body, retvar) or [ast.Pass()]
+            for s_ in new.body:
+                for x in ast.walk(s_):
+                    if not hasattr(x, "lineno"):
+                        ast.copy_location(x, st)
+            out.append(new)
             return out
         if isinstance(st, (ast.While, ast.For)) and _contains_return([st]):
             rest = stmts[i + 1:]
@@ -1061,6 +1101,9 @@ def inline_helpers(P: Program, f: Func, depth: int = 2) -> Func:
         v = _inline_helpers(P, f, depth)
         if v is not f:
             v = _search_result_flow(v)               # what an Optional-returning search helper leaves behind
+            v = _list_copy_alias(v)                  # `xs = list(<materialised generator>)`
+        v = _plain_assignments(v)
+        v = _bucket_reads(v)                         # group-by-field dict + lookup  ==  filter by that field
         v = _named_literals(P, v)                    # a module constant the pinned tree does not have stands for its literal
         v = inline_predicates(P, v)                  # side-effect-free one-expression helpers, wherever they are called (loop tests, arguments, ...)
         v = erase(P, v)                              # local records (NamedTuples) written back as tuples / separate locals
@@ -1305,6 +1348,156 @@ def _search_result_flow(f: Func) -> Func:
     return Func(f.mod, f.qual, node, f.cls)
 
 
+def _list_copy_alias(f: Func) -> Func:
+    """`M = list(L)` (or L[:], L.copy(), plain L) where L is a local list filled by appends that is not looked at again, and M is bound nowhere
+    else: M is L (the copy only changes the name under which the finished list goes on)."""
+    order = None
+    for st in [n for n in own_nodes(f.node) if isinstance(n, ast.Assign) and len(n.targets) == 1 and isinstance(n.targets[0], ast.Name)]:
+        v = st.value
+        L = None
+        if isinstance(v, ast.Call) and isinstance(v.func, ast.Name) and v.func.id == "list" and len(v.args) == 1 and isinstance(v.args[0], ast.Name) and not v.keywords:
+            L = v.args[0]
+        elif isinstance(v, ast.Subscript) and isinstance(v.value, ast.Name) and isinstance(v.slice, ast.Slice) and v.slice.lower is None and v.slice.upper is None and v.slice.step is None:
+            L = v.value
+        elif isinstance(v, ast.Call) and isinstance(v.func, ast.Attribute) and v.func.attr == "copy" and isinstance(v.func.value, ast.Name) and not v.args:
+            L = v.func.value
+        if L is None or "__" not in L.id:
+            continue      # only lists the view itself introduced (materialised generators, helper locals): a programmer's own copy may be there for a reason
+        M = st.targets[0].id
+        if M == L.id or M in f.params() or L.id in f.params():
+            continue
+        inits = [n for n in own_nodes(f.node) if isinstance(n, ast.Assign) and len(n.targets) == 1 and norm.is_name(n.targets[0], L.id)]
+        if len(inits) != 1 or not (isinstance(inits[0].value, ast.List) and not inits[0].value.elts):
+            continue
+        if order is None:
+            order = source_order(f.node)
+        here = order.get(id(L), (0, 0))[0]
+        if any(isinstance(n, ast.Name) and n.id == L.id and n is not L and order.get(id(n), (0, 0))[0] > here for n in own_nodes(f.node)):
+            continue
+        if sum(1 for n in own_nodes(f.node) if isinstance(n, ast.Name) and n.id == M and isinstance(n.ctx, (ast.Store, ast.Del))) != 1:
+            continue
+        if any(isinstance(n, ast.Name) and n.id == M and isinstance(n.ctx, ast.Load) and order.get(id(n), (0, 0))[0] < here for n in own_nodes(f.node)):
+            continue
+        node = norm.clone(f.node)
+        m = {id(a): b for a, b in zip(ast.walk(f.node), ast.walk(node))}
+        cst = m[id(st)]
+        par = m[id(parent(st))]
+        for fld in ("body", "orelse", "finalbody"):
+            b = getattr(par, fld, None)
+            if isinstance(b, list) and any(x is cst for x in b):
+                setattr(par, fld, [x for x in b if x is not cst] or [ast.Pass()])
+        for n in ast.walk(node):
+            if isinstance(n, ast.Name) and n.id == L.id:
+                n.id = M
+        ast.fix_missing_locations(node)
+        for n in ast.walk(node):
+            for ch in ast.iter_child_nodes(n):
+                ch._parent = n  # type: ignore[attr-defined]
+        node._parent = getattr(f.node, "_parent", None)  # type: ignore[attr-defined]
+        return _list_copy_alias(Func(f.mod, f.qual, node, f.cls))
+    return f
+
+
+def _bucket_reads(f: Func) -> Func:
+    """`D = {}; for c in SRC: D.setdefault(c.key, []).append(c)` ... `D.get(k, [])`  is  `[c for c in SRC if c.key == k]`: grouping a list by a
+    field in one pass and looking a group up is the same selection as filtering the list for that value of the field (same elements, same
+    order).  Also the pre-filled (`{k: [] for k in range(n)}` + `D.get(c.key)` / `D[c.key]`) and defaultdict(list) spellings."""
+    for init in [n for n in own_nodes(f.node) if isinstance(n, ast.Assign) and len(n.targets) == 1 and isinstance(n.targets[0], ast.Name)]:
+        D = init.targets[0].id
+        v = init.value
+        kind = None
+        if isinstance(v, ast.Dict) and not v.keys:
+            kind = "plain"
+        elif isinstance(v, ast.DictComp) and isinstance(v.value, ast.List) and not v.value.elts:
+            kind = "prefilled"
+        elif isinstance(v, ast.Call) and norm.call_name(v) == "defaultdict" and len(v.args) == 1 and norm.is_name(v.args[0], "list"):
+            kind = "default"
+        if kind is None:
+            continue
+        occ = [n for n in own_nodes(f.node) if isinstance(n, ast.Name) and n.id == D]
+        if sum(1 for n in occ if isinstance(n.ctx, (ast.Store, ast.Del))) != 1:
+            continue
+        # the fill loop
+        fill = None
+        for lp in [n for n in own_nodes(f.node) if isinstance(n, ast.For) and isinstance(n.target, ast.Name) and isinstance(n.iter, ast.Name) and not n.orelse]:
+            c, SRC = lp.target.id, lp.iter.id
+            body = lp.body
+            key = None
+            if len(body) == 1 and isinstance(body[0], ast.Expr) and isinstance(body[0].value, ast.Call):
+                call = body[0].value
+                if isinstance(call.func, ast.Attribute) and call.func.attr == "append" and len(call.args) == 1 and norm.is_name(call.args[0], c):
+                    recv = call.func.value
+                    if isinstance(recv, ast.Call) and isinstance(recv.func, ast.Attribute) and recv.func.attr == "setdefault" and norm.is_name(recv.func.value, D) \
+                            and len(recv.args) == 2 and isinstance(recv.args[1], ast.List) and not recv.args[1].elts:
+                        key = recv.args[0]
+                    elif isinstance(recv, ast.Subscript) and norm.is_name(recv.value, D) and kind in ("prefilled", "default"):
+                        key = recv.slice
+            elif len(body) == 2 and isinstance(body[0], ast.Assign) and len(body[0].targets) == 1 and isinstance(body[0].targets[0], ast.Name) \
+                    and isinstance(body[0].value, ast.Call) and isinstance(body[0].value.func, ast.Attribute) and body[0].value.func.attr == "get" \
+                    and norm.is_name(body[0].value.func.value, D) and len(body[0].value.args) == 1 and isinstance(body[1], ast.If) and not body[1].orelse \
+                    and norm.nnf(body[1].test) == ("cmp", "isnot", body[0].targets[0].id, "None") and len(body[1].body) == 1 and isinstance(body[1].body[0], ast.Expr) \
+                    and norm.U(body[1].body[0].value) == f"{body[0].targets[0].id}.append({c})" and kind == "prefilled":
+                key = body[0].value.args[0]
+            if key is not None and isinstance(key, ast.Attribute) and norm.is_name(key.value, c):
+                fill = (lp, c, SRC, key.attr)
+                break
+        if fill is None:
+            continue
+        lp, c, SRC, attr = fill
+        inside = {id(x) for x in ast.walk(lp)}
+        reads = []
+        ok = True
+        for n in occ:
+            if id(n) in inside or not isinstance(n.ctx, ast.Load):
+                continue
+            p_ = parent(n)
+            pp = parent(p_) if p_ is not None else None
+            if isinstance(p_, ast.Attribute) and p_.attr == "get" and isinstance(pp, ast.Call) and pp.func is p_ and len(pp.args) == 2 \
+                    and isinstance(pp.args[1], ast.List) and not pp.args[1].elts:
+                reads.append((pp, pp.args[0]))
+            elif isinstance(p_, ast.Subscript) and p_.value is n and isinstance(p_.ctx, ast.Load) and kind in ("prefilled", "default") and not isinstance(p_.slice, ast.Slice):
+                reads.append((p_, p_.slice))
+            else:
+                ok = False
+        if not ok or not reads:
+            continue
+        if SRC not in f.params() and sum(1 for n in own_nodes(f.node) if isinstance(n, ast.Name) and n.id == SRC and isinstance(n.ctx, ast.Store)) != 1:
+            continue
+        node = norm.clone(f.node)
+        m = {id(a): b for a, b in zip(ast.walk(f.node), ast.walk(node))}
+        k = 0
+        for rd, keyexpr in reads:
+            k += 1
+            cv = f"{c}__b{k}"
+            comp = ast.ListComp(elt=ast.Name(id=cv, ctx=ast.Load()),
+                                generators=[ast.comprehension(target=ast.Name(id=cv, ctx=ast.Store()), iter=ast.Name(id=SRC, ctx=ast.Load()),
+                                                              ifs=[ast.Compare(left=ast.Attribute(value=ast.Name(id=cv, ctx=ast.Load()), attr=attr, ctx=ast.Load()), ops=[ast.Eq()],
+                                                                               comparators=[norm.clone(m[id(keyexpr)])])], is_async=0)])
+            tgt = m[id(rd)]
+            par = m[id(parent(rd))]
+            for fld, val in ast.iter_fields(par):
+                if val is tgt:
+                    setattr(par, fld, comp)
+                elif isinstance(val, list):
+                    for i_, x in enumerate(val):
+                        if x is tgt:
+                            val[i_] = comp
+        for dead in (init, lp):
+            cd = m[id(dead)]
+            par = m[id(parent(dead))]
+            for fld in ("body", "orelse", "finalbody"):
+                b = getattr(par, fld, None)
+                if isinstance(b, list) and any(x is cd for x in b):
+                    setattr(par, fld, [x for x in b if x is not cd] or [ast.Pass()])
+        ast.fix_missing_locations(node)
+        for n in ast.walk(node):
+            for ch in ast.iter_child_nodes(n):
+                ch._parent = n  # type: ignore[attr-defined]
+        node._parent = getattr(f.node, "_parent", None)  # type: ignore[attr-defined]
+        return _bucket_reads(Func(f.mod, f.qual, node, f.cls))
+    return f
+
+
 def _genexp_loops(f: Func) -> Func:
     """`X = (E(v) for v in it)` bound once and consumed by exactly one `for r in X:` loop (no other use of X) is that loop over `it` with
     `r = E(v)` as its first statement: the generator expression only delays the evaluation to the moment the loop asks for the element."""
@@ -1410,6 +1603,19 @@ def _inline_helpers(P: Program, f: Func, depth: int = 2) -> Func:
         queue = list(stmts)
         while queue:
             st = queue.pop(0)
+            # return [helper(v) for v in it]   ==   acc = [helper(v) for v in it]; return acc
+            if d > 0 and isinstance(st, ast.Return) and isinstance(st.value, ast.ListComp) and len(st.value.generators) == 1 and not st.value.generators[0].is_async \
+                    and any(isinstance(x, ast.Call) and _inlinable(P, f, x) is not None for x in ast.walk(st.value.elt)):
+                counter[0] += 1
+                accn = f"listed__i{counter[0]}"
+                a_ = ast.copy_location(ast.Assign(targets=[ast.Name(id=accn, ctx=ast.Store())], value=st.value), st)
+                r_ = ast.copy_location(ast.Return(value=ast.Name(id=accn, ctx=ast.Load())), st)
+                for x in list(ast.walk(a_)) + list(ast.walk(r_)):
+                    if not hasattr(x, "lineno"):
+                        ast.copy_location(x, st)
+                queue[:0] = [a_, r_]
+                changed_any = True
+                continue
             # X = [helper(v) for v in it]   ==   X = []; for v in it: X.append(helper(v))      (only when there is a helper to look into)
             if d > 0 and isinstance(st, ast.Assign) and len(st.targets) == 1 and isinstance(st.targets[0], ast.Name) and isinstance(st.value, ast.ListComp) \
                     and len(st.value.generators) == 1 and not st.value.generators[0].is_async \
@@ -1434,6 +1640,55 @@ def _inline_helpers(P: Program, f: Func, depth: int = 2) -> Func:
                 queue[:0] = [init, lp_]
                 changed_any = True
                 continue
+            # X = sorted(gen(..), key=..) / list(gen(..)) / sum(gen(..)) ...: a generator helper that is consumed completely, on the spot, by a
+            # builtin is the list of what it yields:  acc = []; <body of gen with `yield v` -> acc.append(v)>; X = sorted(acc, key=..)
+            if d > 0 and isinstance(st, (ast.Expr, ast.Return, ast.Assign)) and isinstance(st.value, ast.Call) and isinstance(st.value.func, ast.Name) \
+                    and st.value.func.id in ("sorted", "list", "tuple", "set", "frozenset", "sum", "max", "min") and st.value.args \
+                    and isinstance(st.value.args[0], ast.Call) and _inlinable(P, f, st.value.args[0], allow_yield=True) is not None:
+                hc = st.value.args[0]
+                t2 = _inlinable(P, f, hc, allow_yield=True)
+                counter[0] += 1
+                tag = f"i{counter[0]}"
+                body2, _ret = _instantiate(t2, hc, tag)
+                acc = f"yielded__{tag}"
+                okm = True
+
+                def to_append(stmts_):
+                    nonlocal okm
+                    res = []
+                    for s_ in stmts_:
+                        if isinstance(s_, ast.Expr) and isinstance(s_.value, ast.Yield):
+                            v_ = s_.value.value if s_.value.value is not None else ast.Constant(None)
+                            res.append(ast.copy_location(ast.Expr(value=ast.Call(func=ast.Attribute(value=ast.Name(id=acc, ctx=ast.Load()), attr="append", ctx=ast.Load()),
+                                                                                 args=[v_], keywords=[])), s_))
+                            continue
+                        if any(isinstance(x, (ast.Yield, ast.YieldFrom)) for x in ast.walk(s_)) and not any(isinstance(s_, t) for t in (ast.If, ast.For, ast.While, ast.With, ast.Try)):
+                            okm = False
+                        for fld in ("body", "orelse", "finalbody"):
+                            b_ = getattr(s_, fld, None)
+                            if isinstance(b_, list) and b_ and isinstance(b_[0], ast.stmt):
+                                setattr(s_, fld, to_append(b_))
+                        if isinstance(s_, ast.Try):
+                            for h_ in s_.handlers:
+                                h_.body = to_append(h_.body)
+                        if isinstance(s_, ast.Return):
+                            okm = False
+                        res.append(s_)
+                    return res
+                body3 = to_append(body2)
+                if okm:
+                    init = ast.copy_location(ast.Assign(targets=[ast.Name(id=acc, ctx=ast.Store())], value=ast.List(elts=[], ctx=ast.Load())), st)
+                    body3 = expand(body3, d - 1)
+                    for b in [init] + body3:
+                        for x in ast.walk(b):
+                            if not hasattr(x, "lineno"):
+                                ast.copy_location(x, st)
+                    out.append(init)
+                    out.extend(body3)
+                    st.value.args[0] = ast.copy_location(ast.Name(id=acc, ctx=ast.Load()), hc)
+                    queue.insert(0, st)
+                    changed_any = True
+                    continue
             # recv.m(a, helper(..), b): the helper runs before the outer call; its body may be placed before the statement when
             # everything evaluated before it is a plain name / attribute / constant
             if d > 0 and isinstance(st, (ast.Expr, ast.Return, ast.Assign)) and isinstance(st.value, ast.Call) and _inlinable(P, f, st.value) is None \
@@ -1789,9 +2044,15 @@ def inline_predicates(P: Program, f: Func, depth: int = 2) -> Func:
             e = body[0].value
             if any(isinstance(x, (ast.Yield, ast.YieldFrom, ast.Await, ast.NamedExpr, ast.Lambda)) for x in ast.walk(e)):
                 return c
-            if any(isinstance(x, ast.Call) and not _pure_call(x) for x in ast.walk(e)):
-                return c
+            impure = any(isinstance(x, ast.Call) and not _pure_call(x) for x in ast.walk(e))
             params = target.params()
+            if impure:
+                # `return cls(a=d["a"], ..)` / `return Foo(x).bar()`: the expression takes the place of the call as it stands, so nothing is evaluated
+                # more or less often than before — provided no argument expression is duplicated or dropped by the substitution
+                simple = all(isinstance(a, (ast.Name, ast.Constant)) or norm.attr_chain(a) is not None for a in c.args)
+                once = all(sum(1 for x in ast.walk(e) if isinstance(x, ast.Name) and x.id == p_) == 1 for p_ in params[(1 if isinstance(fn, ast.Attribute) else 0):])
+                if not (simple or once):
+                    return c
             env: Dict[str, ast.expr] = {}
             if isinstance(fn, ast.Attribute) and _kind_of_method(target) != "staticmethod":
                 env[params[0]] = fn.value
